@@ -1057,8 +1057,193 @@ def run_subquery_nulls(ctx, rounds):
                               observed=selected, expected=py, key='subquery-null:' + qsrc)
 
 
+# ---------------------------------------------------------------- correlated EXISTS / NOT EXISTS / COUNT over a collection (Model/QRel.lean)
+
+def run_exists(ctx, n_exprs):
+    """`exists(e for e in p.es if COND)`, `not exists(…)`, `count(e for e in p.es if COND) == k` with COND from the fragment generator
+    over the child entity E (reference `parent` may be NULL): (1) the real EXISTS node is decoded and its inner conditions submitted
+    to the verified checker (op checkexists; C01_exists_collection / C01_not_exists_collection / C01_count_collection);
+    (2) parents returned vs Python `any(...)` / `len([...])` under the reading `py`; (3) the model sub-select vs real SQLite."""
+    rng = ctx.rng
+    db = Database()
+    class P(db.Entity):
+        es = Set('E')
+    class E(db.Entity):
+        a = Required(int); c = Required(int); n = Optional(int); m = Optional(int)
+        b = Required(bool); nb = Optional(bool)
+        s = Required(str); t = Optional(str); ns = Optional(str, nullable=True)
+        parent = Optional(P)
+    db.bind('sqlite', ':memory:'); db.generate_mapping(create_tables=True)
+    rows = [Q.random_row(rng) for _ in range(ctx.scale(14, 30))]
+    fks = [rng.choice([None, 1, 1, 2, 3]) for _ in rows]
+    with db_session:
+        ps = [P() for _ in range(4)]           # parent 4 has no children
+        for r, fk in zip(rows, fks):
+            E(parent=(ps[fk - 1] if fk else None), **{k: v for k, v in r.items() if v is not None})
+    gen = Q.Gen(rng, 'frag'); sch = Q.schema_json()
+    ck_reqs, ck_meta, ev_reqs, ev_meta = [], [], [], []
+    with db_session:
+        for _ in range(n_exprs):
+            e = gen.expr(rng.choice([1, 2, 2, 3]))
+            params = Q.random_params(rng); src = Q.src(e)
+            G = dict(params); G.update(P=P, E=E, select=select, exists=exists, count=count)
+            sel = [Q.as_k(Q.py_eval(e, r, params)) == Q.TT for r in rows]
+            cnt = {pk: sum(1 for ok, fk in zip(sel, fks) if ok and fk == pk) for pk in (1, 2, 3, 4)}
+            k = rng.choice([0, 1, 2])
+            variants = [('exists', 'p.id for p in P if exists(e for e in p.es if %s)' % src, sorted(pk for pk in cnt if cnt[pk] > 0)),
+                        ('not-exists', 'p.id for p in P if not exists(e for e in p.es if %s)' % src, sorted(pk for pk in cnt if cnt[pk] == 0)),
+                        ('count', 'p.id for p in P if count(e for e in p.es if %s) == %d' % (src, k), sorted(pk for pk in cnt if cnt[pk] == k))]
+            for kind, qsrc, exp in variants:
+                for form in ('string', 'generator'):
+                    ctx.case(['exists', kind, form, src], kind='exists:%s:%s' % (kind, form))
+                    try:
+                        q = select(qsrc, G) if form == 'string' else eval('select(%s)' % qsrc, G)
+                        got = sorted(q[:])
+                    except Exception as ex:
+                        ctx.count('exists:%s:raises:%s' % (form, type(ex).__name__)); continue
+                    if got != exp:
+                        small = e
+                        ctx.violation('parents returned by a query with a correlated sub-query over a collection differ from Python (%s, %s form)' % (kind, form),
+                                      {'query': 'select(%s)' % qsrc, 'params': {x: params[x] for x in params if x in src}, 'children (parent, row)': [(fk, {a: r[a] for a in sorted({s_[1] for s_ in Q.subexprs(e) if s_[0] == 'attr'})}) for fk, r in zip(fks, rows)][:8]},
+                                      observed=got, expected=exp, key=(classify(e, 'string', False) or 'exists:%s:%s' % (kind, json.dumps(Q.to_json(Q.canon_atoms(e))))))
+                    if form == 'string' and kind in ('exists', 'not-exists'):
+                        ast_ = Q.norm_ast(q._translator.conditions)
+                        if len(ast_) == 1:
+                            ck_reqs.append({'op': 'checkexists', 'dialect': 'sqlite', 'schema': sch, 'expr': Q.to_json(e), 'ast': ast_[0], 'parent': 'p', 'child': 'e', 'pk': 'id', 'fk': 'parent'})
+                            ck_meta.append((qsrc, kind))
+                            if kind == 'exists':
+                                conds = ast_[0][2][2:]
+                                ev_reqs.append({'op': 'evalexists', 'dialect': 'sqlite', 'sql': conds, 'params': params, 'rows': [dict(r, fk=fk) for r, fk in zip(rows, fks)], 'pks': [1, 2, 3, 4]})
+                                ev_meta.append((qsrc, got, cnt))
+                        else: ctx.count('exists:unexpected-number-of-conditions')
+    db.disconnect()
+    if not ctx.driver.ok: return
+    for (qsrc, kind), out in zip(ck_meta, ctx.driver('C01', ck_reqs)):
+        if out.get('accepted') and out.get('negated') == (kind == 'not-exists'): ctx.count('exists:checker-accepted')
+        elif out.get('frag'):
+            ctx.divergence('the verified checker rejects the correlated sub-query the real translator emitted', {'query': qsrc}, model=out, impl=None)
+        else: ctx.count('exists:checker-not-applicable(outside fragment)')
+    for (qsrc, got, cnt), out in zip(ev_meta, ctx.driver('C01', ev_reqs)):
+        if 'ok' not in out or 'err' in out['ok']: ctx.count('exists:model-evaluation-error'); continue
+        ctx.count('exists:model-vs-sqlite')
+        model = sorted(pk for pk, o in zip((1, 2, 3, 4), out['ok']) if o['exists'])
+        if model != got:
+            ctx.divergence('model semantics of the correlated sub-select differs from real SQLite', {'query': qsrc}, model=model, impl=got)
+
+
+class JoinGen(Q.Gen):
+    """fragment generator that also reads attributes of the referenced parent (`e.parent.k`, `e.parent.kn`, `e.parent.nm`)"""
+    def leaf(self, ty, want_attr=False):
+        r = self.rng
+        if r.random() < 0.3:
+            if ty == 'int': return ('attr', r.choice(['parent.k', 'parent.kn']))
+            if ty == 'str': return ('attr', 'parent.nm')
+        return Q.Gen.leaf(self, ty, want_attr)
+
+
+PARENT_ATTRS = {'parent.k': ('int', False), 'parent.kn': ('int', True), 'parent.nm': ('str', False)}
+
+
+def run_joins(ctx, n_exprs):
+    """conditions that navigate through a to-one reference: `e.parent.<attr>` (REQUIRED reference) and `e.op.<attr>` (OPTIONAL):
+    the real conditions go to the verified checker with the parent's columns read as attributes of the joined row (op checkjoin;
+    C01_join, C01_join_required); rows returned vs the theorem's statement: reference present AND Python reading true.  For the
+    optional reference the rows Python would additionally select are the known finding optional-reference-navigation-inner-join-drops-rows."""
+    rng = ctx.rng
+    Q.ATTRS.update(PARENT_ATTRS)
+    db = Database()
+    class P(db.Entity):
+        k = Required(int); kn = Optional(int); nm = Required(str)
+        es = Set('E', reverse='parent'); os = Set('E', reverse='op')
+    class E(db.Entity):
+        a = Required(int); c = Required(int); n = Optional(int); m = Optional(int)
+        b = Required(bool); nb = Optional(bool)
+        s = Required(str); t = Optional(str); ns = Optional(str, nullable=True)
+        parent = Required(P, reverse='es')
+        op = Optional(P, reverse='os')
+    db.bind('sqlite', ':memory:'); db.generate_mapping(create_tables=True)
+    prow = [{'k': 0, 'kn': None, 'nm': 'a'}, {'k': 2, 'kn': 1, 'nm': 'ab'}, {'k': -1, 'kn': 0, 'nm': 'b%'}]
+    base = [Q.random_row(rng) for _ in range(ctx.scale(14, 30))]
+    par = [rng.choice([0, 1, 2]) for _ in base]; opt = [rng.choice([None, None, 0, 1, 2]) for _ in base]
+    with db_session:
+        ps = [P(**{k: v for k, v in r.items() if v is not None}) for r in prow]
+        for r, i, o in zip(base, par, opt):
+            E(parent=ps[i], op=(ps[o] if o is not None else None), **{k: v for k, v in r.items() if v is not None})
+    def joined(r, i):
+        d = dict(r)
+        for k in ('k', 'kn', 'nm'): d['parent.' + k] = prow[i][k] if i is not None else None
+        return d
+    sch = Q.schema_json(); sch['attrs'].update({k: [v[0], v[1]] for k, v in PARENT_ATTRS.items()})
+    gen = JoinGen(rng, 'frag')
+    ck_reqs, ck_meta = [], []
+    with db_session:
+        for _ in range(n_exprs):
+            for _t in range(30):
+                e = gen.expr(rng.choice([1, 2, 2, 3]))
+                if any(x[0] == 'attr' and x[1].startswith('parent.') for x in Q.subexprs(e)): break
+            else: continue
+            params = Q.random_params(rng); src = Q.src(e)
+            G = dict(params); G.update(P=P, E=E, select=select)
+            for ref, links in (('parent', par), ('op', opt)):
+                qsrc = 'e.id for e in E if ' + src.replace('e.parent.', 'e.%s.' % ref)
+                rows_j = [joined(r, i) for r, i in zip(base, links)]
+                exp = [n + 1 for n, (r, i) in enumerate(zip(rows_j, links)) if i is not None and Q.as_k(Q.py_eval(e, r, params)) == Q.TT]
+                dropped = [n + 1 for n, (r, i) in enumerate(zip(rows_j, links)) if i is None and Q.as_k(Q.py_eval(e, r, params)) == Q.TT]
+                for form in ('string', 'generator'):
+                    ctx.case(['join', ref, form, src], kind='join:%s:%s' % (ref, form))
+                    try:
+                        q = select(qsrc, G) if form == 'string' else eval('select(%s)' % qsrc, G)
+                        got = sorted(q[:])
+                    except Exception as ex:
+                        ctx.count('join:%s:raises:%s' % (form, type(ex).__name__)); continue
+                    if got != exp:
+                        ctx.violation('a condition that navigates through a to-one reference returns other rows than Python on the rows whose reference is present (%s, %s form)' % (ref, form),
+                                      {'query': 'select(%s)' % qsrc, 'params': {x: params[x] for x in params if x in src}}, observed=got, expected=exp,
+                                      key=(classify(e, 'string', False) or 'join:%s:%s' % (ref, json.dumps(Q.to_json(Q.canon_atoms(e))))))
+                    if dropped: ctx.count('join:optional-reference:rows-python-would-also-select(known finding)')
+                    if form == 'string':
+                        sch_r = sch if ref == 'parent' else dict(sch, attrs=dict(sch['attrs'], **{k_: [v_[0], True] for k_, v_ in PARENT_ATTRS.items()}))   # through an optional reference every attribute may be missing (26b85c0)
+                        ck_reqs.append({'op': 'checkjoin', 'dialect': 'sqlite', 'schema': sch_r, 'expr': Q.to_json(e), 'sql': Q.norm_ast(q._translator.conditions), 'child': 'e'})
+                        ck_meta.append(qsrc)
+    db.disconnect()
+    for k in PARENT_ATTRS: Q.ATTRS.pop(k, None)
+    if not ctx.driver.ok: return
+    for qsrc, out in zip(ck_meta, ctx.driver('C01', ck_reqs)):
+        if out.get('accepted'): ctx.count('join:checker-accepted')
+        elif out.get('frag'): ctx.divergence('the verified checker rejects the conditions of a query that navigates through a reference', {'query': qsrc}, model=out, impl=None)
+        else: ctx.count('join:checker-not-applicable(outside fragment)')
+
+
+def run_optional_ref_witness(ctx):
+    """navigation through an OPTIONAL reference adds an inner join that drops every row whose reference is missing"""
+    db = Database()
+    class NP(db.Entity):
+        k = Required(int)
+        es = Set('NE')
+    class NE(db.Entity):
+        op = Optional(NP)
+    db.bind('sqlite', ':memory:'); db.generate_mapping(create_tables=True)
+    with db_session:
+        p_ = NP(k=2); NE(op=p_); NE(); NE()
+    key = 'optional-reference-navigation-inner-join-drops-rows'
+    ctx.case(['witness', key], kind='witness')
+    with db_session:
+        ns = dict(NP=NP, NE=NE, select=select)
+        got = sorted(o.id for o in eval('select(e for e in NE if e.op is None or e.op.k > 1)', ns))
+        exp = sorted(o.id for o in NE.select() if o.op is None or o.op.k > 1)
+        # control: the same query on a REQUIRED-like data set (every reference present) is right
+    if got != exp:
+        ctx.violation('a condition that navigates through an optional reference loses the rows whose reference is missing',
+                      {'query': 'select(e for e in NE if e.op is None or e.op.k > 1)', 'data': 'NP(k=2); NE(op=NP[1]); NE(); NE()'}, observed=got, expected=exp, key=key)
+    else: ctx.count('witness-no-longer-fails:' + key)
+    db.disconnect()
+
+
 def run(ctx):
     run_witnesses(ctx)
+    run_optional_ref_witness(ctx)
+    run_exists(ctx, ctx.scale(40, 500))
+    run_joins(ctx, ctx.scale(40, 500))
     run_subquery_nulls(ctx, ctx.scale(4, 40))
     run_tuple_and_refset_witnesses(ctx)
     run_string_index(ctx, ctx.scale(25, 300))
